@@ -17,6 +17,9 @@ pub(crate) struct Ident {
     name: String,
     ty: Option<Cow<'static, TypeLayout>>,
     read_only: bool,
+    /// set on the entry that `modify name = ..` registers in its own scope: an alias of the captured
+    /// variable, not a declaration of a variable of this function
+    modify_alias: bool,
 }
 
 impl Compile for Ident {
@@ -90,6 +93,7 @@ impl Ident {
             name,
             ty,
             read_only,
+            modify_alias: false,
         }
     }
 
@@ -99,6 +103,14 @@ impl Ident {
 
     pub fn is_const(&self) -> bool {
         self.read_only
+    }
+
+    pub fn mark_modify_alias(&mut self) {
+        self.modify_alias = true;
+    }
+
+    pub fn is_modify_alias(&self) -> bool {
+        self.modify_alias
     }
 
     pub fn is_instance_callback_variable(&self) -> Result<bool> {
@@ -121,6 +133,7 @@ impl Ident {
         Self {
             name: self.name.clone(),
             read_only: self.read_only,
+            modify_alias: self.modify_alias,
             ty: Some(ty),
         }
     }
@@ -201,6 +214,7 @@ impl Parser {
             name,
             ty: None,
             read_only: false,
+            modify_alias: false,
         })
     }
 }
